@@ -469,7 +469,7 @@ func (h *hostile) smppBody(body string, coding int) {
 func (h *hostile) auxParsers() {
 	c := h.r.C
 	var s []byte
-	switch c.Pick(3, 2, 2, 2, 2, 3, 2, 3) {
+	switch c.Pick(3, 2, 2, 2, 2, 3, 2, 3, 2) {
 	case 5:
 		// packed GSM 7-bit: septet sequences over the branch-driving alphabet, packed by the reference packer
 		alpha := []byte{0x00, 0x01, 0x0d, 0x1b, 0x3f, 0x40, 0x7f, 0x65, 0x0a, 0x41}
@@ -558,6 +558,16 @@ func (h *hostile) auxParsers() {
 			s = append(s, 0, 2, 0)
 		case 3:
 			s = append(s, 0, 2, 0xff, 0xff, 1, 2)
+		}
+	case 8: // digit strings (the text form of a message id), some of the digits from other scripts: the octet length
+		// and the character count differ
+		digs := []string{"0", "1", "5", "9", "\uff10", "\uff16", "\u0660", "\u0669", "\u09e6", "\U0001d7ce", "\u00b2"}
+		for i, n := 0, 15+c.Intn(16); i < n; i++ {
+			if c.Prob(1, 6) {
+				s = append(s, digs[4+c.Intn(len(digs)-4)]...)
+			} else {
+				s = append(s, digs[c.Intn(4)]...)
+			}
 		}
 	case 7: // bracket soup for the signature helpers: every short arrangement of brackets, blanks and letters
 		toks := []string{"\u3010", "\u3011", "[", "]", " ", "a", "\u7b7e", "  ", "ab"}
